@@ -162,6 +162,8 @@ func Run(spec *Spec) *Out { return RunFunc(spec, nil) }
 func RunFunc(spec *Spec, root func()) *Out {
 	out := &Out{}
 	start := time.Now()
+	guardRunStart(spec)
+	defer guardRunEnd()
 	func() {
 		defer func() {
 			if r := recover(); r != nil {
